@@ -399,8 +399,13 @@ class BaseClientHandler:
         empty the list of pending expunges.
         """
         if self.pending_notifications:
-            await self.client.push(*self.pending_notifications)
+            # Take the list before we push it: push() can suspend on a slow
+            # client and whatever is queued for us meanwhile must stay
+            # queued for the next flush.
+            #
+            notifications = self.pending_notifications
             self.pending_notifications = []
+            await self.client.push(*notifications)
 
     ##################################################################
     #
